@@ -406,7 +406,7 @@ func c18free(c Case, kind string, n int, base0 int) ([][]string, string) {
 		// left behind and that is still alive is still a leak
 		base = base0
 	}
-	ssql := streamsql.New(streamsql.WithDiscardLog(), streamsql.WithCustomPerformance(perf))
+	ssql := streamsql.New(presetOpt(), streamsql.WithDiscardLog(), streamsql.WithCustomPerformance(perf))
 	if err := ssql.Execute(c18SQL[kind]); err != nil {
 		return [][]string{{"execute-error"}}, "execute-error"
 	}
@@ -641,7 +641,7 @@ func c18exotic(kind string, pick int) [][]string {
 		f()
 	}
 	base := runtime.NumGoroutine()
-	ssql := streamsql.New(streamsql.WithDiscardLog())
+	ssql := streamsql.New(presetOpt(), streamsql.WithDiscardLog())
 	if err := ssql.Execute(c18ExoticSQL[kind]); err != nil {
 		return [][]string{{"execute-error", hx(err.Error())}}
 	}
@@ -745,7 +745,7 @@ func c18failExec(c Case) [][]string {
 		where = unhx(v[0])
 	}
 	base := runtime.NumGoroutine()
-	ssql := streamsql.New(streamsql.WithDiscardLog())
+	ssql := streamsql.New(presetOpt(), streamsql.WithDiscardLog())
 	err := ssql.Execute("SELECT id FROM stream WHERE " + where)
 	ssql.Stop()
 	out := [][]string{{"execute", map[bool]string{true: "error", false: "ok"}[err != nil]}}
@@ -821,7 +821,7 @@ func (c18) Exec(c Case) [][][]string {
 		}
 		return ""
 	}
-	r.ssql = streamsql.New(streamsql.WithDiscardLog(), streamsql.WithCustomPerformance(perf))
+	r.ssql = streamsql.New(presetOpt(), streamsql.WithDiscardLog(), streamsql.WithCustomPerformance(perf))
 	stream.VerifSetYield(s.yield)
 	defer stream.VerifSetYield(nil)
 	obs := make([][][]string, 0, len(c.Ops))
